@@ -19,6 +19,10 @@ import (
 	"context"
 	"fmt"
 	"math/rand"
+	"sort"
+
+	"github.com/brimdata/super/api"
+	"github.com/segmentio/ksuid"
 	"strings"
 
 	"verif/core"
@@ -151,7 +155,118 @@ func run(c *core.Ctx) error {
 		}
 		c.Logf("%s: %d schedules replayed, %d drifted", sc.Name, len(bhs), drifts)
 	}
+	if err := rewriteRaces(c); err != nil {
+		return err
+	}
 	return randomTraces(c, r)
+}
+
+// rewriteRaces: commits whose content depends on the tip they are built on
+// (compaction, delete) racing on the same objects.  Whatever the interleaving,
+// every acknowledged commit must be replayable: the branch stays readable and
+// shows exactly the acknowledged effects.
+func rewriteRaces(c *core.Ctx) error {
+	ctx := context.Background()
+	inv := []string{"TypeOK", "HeadHint", "NotStuck", "ChainOK", "AckedOnce", "NoOrphanOnFail", "AckedCommitStored", "SingleChain"}
+	mkRunner := func() (*jrun.Runner, *[]ksuid.KSUID) {
+		var objs []ksuid.KSUID
+		r := &jrun.Runner{C: c, Ctx: ctx, Thresh: 1, SkipTipData: true}
+		r.Setup = func(ctx context.Context, lk *lakeh.Lake, pool ksuid.KSUID) error {
+			if _, err := lk.LoadZSON(ctx, pool, "main", "{k:1,u:1}\n{k:2,u:2}\n{k:3,u:3}"); err != nil {
+				return err
+			}
+			infos, err := lk.Objects(ctx, "p", "main")
+			if err != nil || len(infos) != 3 {
+				return fmt.Errorf("fixture: %d objects %v", len(infos), err)
+			}
+			sort.Slice(infos, func(i, j int) bool { return infos[i].Min < infos[j].Min })
+			objs = objs[:0]
+			for _, o := range infos {
+				id, _ := ksuid.Parse(o.ID)
+				objs = append(objs, id)
+			}
+			return nil
+		}
+		r.Tip = func(ctx context.Context, lk *lakeh.Lake, pool ksuid.KSUID, cl, k int, op lakeh.JOp) (ksuid.KSUID, error) {
+			m := api.CommitMessage{Author: "verif"}
+			switch op.Arg {
+			case "compact01":
+				return lk.API.Compact(ctx, pool, op.Key, []ksuid.KSUID{objs[0], objs[1]}, false, m)
+			case "delete0":
+				return lk.API.Delete(ctx, pool, op.Key, []ksuid.KSUID{objs[0]}, m)
+			case "deletewhere1":
+				return lk.API.DeleteWhere(ctx, pool, op.Key, "k==1", m)
+			}
+			return ksuid.Nil, fmt.Errorf("unknown tip realization %q", op.Arg)
+		}
+		return r, &objs
+	}
+	rw := func(arg string) lakeh.JOp { return lakeh.JOp{K: "tip", Key: "main", Arg: arg} }
+	scs := []*lakeh.JScenario{
+		{Name: "compact_vs_delete", Script: [][]lakeh.JOp{{rw("compact01")}, {rw("delete0")}}},
+		{Name: "compact_vs_deletewhere", Script: [][]lakeh.JOp{{rw("compact01")}, {rw("deletewhere1")}}},
+		{Name: "delete_vs_deletewhere", Script: [][]lakeh.JOp{{rw("delete0")}, {rw("deletewhere1")}}},
+	}
+	for _, sc := range scs {
+		sc.Journal, sc.Init, sc.MaxRetries, sc.MaxCommitRetries, sc.PreemptBound, sc.MoveChecksID, sc.Invariants = "branches", map[string]int{"main": 0}, 10, 10, 2, true, inv
+		if !c.Quick() {
+			sc.PreemptBound = 99
+		}
+		r0, _ := mkRunner()
+		if err := r0.Calibrate(sc); err != nil {
+			return err
+		}
+		bhs, res := sc.Run(c, true, false, 8)
+		if res == nil {
+			return nil
+		}
+		limit := 60
+		if !c.Quick() {
+			limit = 2000
+		}
+		if len(bhs) > limit {
+			step := len(bhs) / limit
+			var sub []lakeh.JBehaviour
+			for i := int(c.Seed) % step; i < len(bhs) && len(sub) < limit; i += step {
+				sub = append(sub, bhs[i])
+			}
+			bhs = sub
+		}
+		c.Logf("%s: TLC %d distinct states; replaying %d schedules of conflicting rewrites", sc.Name, res.Distinct, len(bhs))
+		for i := range bhs {
+			bh := &bhs[i]
+			r, _ := mkRunner()
+			results, _, _, err := r.Execute(sc, bh.Sched, nil)
+			if err != nil {
+				return fmt.Errorf("%s schedule %s: %w", sc.Name, lakeh.SchedKey(bh.Sched), err)
+			}
+			c.Eval(sc.Name+"|"+lakeh.SchedKey(bh.Sched), true)
+			w := jrun.Witness{Scenario: sc, Sched: bh.Sched, Results: results}
+			sk := lakeh.SchedKey(bh.Sched)
+			if r.Final == nil {
+				c.Violate("unreadable:"+sc.Name, fmt.Sprintf("branch main cannot be read after conflicting rewrites were acknowledged/refused [schedule %s; results %+v]", sk, results), w)
+				continue
+			}
+			has := map[int]int{}
+			for _, u := range r.Final {
+				has[u]++
+			}
+			removed1 := false
+			for _, g := range results {
+				if g.Res == "ok" && (g.Op.Arg == "delete0" || g.Op.Arg == "deletewhere1") {
+					removed1 = true
+				}
+			}
+			want1 := 1
+			if removed1 {
+				want1 = 0
+			}
+			if has[1] != want1 || has[2] != 1 || has[3] != 1 {
+				c.Violate("contents:"+sc.Name, fmt.Sprintf("after conflicting rewrites main holds %v; value 1 must appear %d time(s), values 2 and 3 once [schedule %s; results %+v]", r.Final, want1, sk, results), w)
+			}
+		}
+	}
+	return nil
 }
 
 // randomTraces: larger configurations than can be exported exhaustively are run
